@@ -453,3 +453,43 @@ pub fn grid_day_selectors(all: bool, part: u64) -> Vec<String> {
     v.push("easter".into());
     v
 }
+
+/// One-rule expressions combining a few day selectors with every pair of time spans built from
+/// boundary clock values (00:00, 00:01, 12:00, 23:59, 24:00, 24:01, 36:00, 47:59, 48:00), open ends
+/// and sun events: the shapes on which "is this rule constant over the day / does it spill past
+/// midnight" decisions of the iterator depend.
+pub fn grid_time_shapes(all: bool, part: u64) -> Vec<String> {
+    let clock = ["00:00", "00:01", "12:00", "23:59", "24:00", "24:01", "36:00", "47:59", "48:00"];
+    let mut spans: Vec<String> = Vec::new();
+    for a in &clock[..5] {
+        for b in clock {
+            spans.push(format!("{a}-{b}"));
+        }
+    }
+    for x in ["00:00+", "12:00+", "23:59+", "sunrise-sunset", "sunset-sunrise", "(sunset+06:00)-01:00", "dusk-48:00", "00:00-dawn", "(dawn-06:00)-(dusk+04:00)", "10:00-16:00/01:30"] {
+        spans.push(x.to_string());
+    }
+    let days: &[&str] = if all {
+        &["Jul 22", "Feb 29", "Dec 31", "Jan 01", "week 10", "week 53", "2030", "2029-2033/2", "Jan", "Dec-Jan", "easter", "easter -1 day", "Jul 20-Jul 22", "Sa[-1]", "Jan 01+Mo", "PH"]
+    } else {
+        &["Jul 22", "Dec 31", "week 10", "2030", "Jan", "easter", "Jul 20-Jul 22", "Sa[-1]"]
+    };
+    let kinds = ["", " unknown", " off", " \"c\""];
+    let mut v = Vec::new();
+    let mut k = 0u64;
+    for d in days {
+        for (i, a) in spans.iter().enumerate() {
+            v.push(format!("{d} {a}{}", kinds[i % 4]));
+            for (j, b) in spans.iter().enumerate() {
+                if i == j || (!all && j < i) {
+                    continue;
+                }
+                k += 1;
+                if all || k % 2 == part % 2 {
+                    v.push(format!("{d} {a},{b}{}", kinds[(i + j) % 4]));
+                }
+            }
+        }
+    }
+    v
+}
